@@ -115,6 +115,11 @@ type absRes struct {
 }
 
 func (ex *Exec) zeroValue(t types.Type) Value {
+	if n := ex.vecDim(t); n > 0 {
+		if _, isPtr := t.(*types.Pointer); !isPtr {
+			return ex.vecZero(n)
+		}
+	}
 	if s, ok := ex.abstractSort(t); ok {
 		return ex.ts.zeroOf(s)
 	}
@@ -437,6 +442,14 @@ func (ex *Exec) mergeVal(g *Term, a, b Value) Value {
 			n := &ArrayV{E: make([]Value, len(x.E))}
 			for i := range x.E {
 				n.E[i] = ex.mergeVal(g, x.E[i], y.E[i])
+			}
+			return n
+		}
+	case *VecV:
+		if y, ok := b.(*VecV); ok && len(x.C) == len(y.C) {
+			n := &VecV{C: make([]*Term, len(x.C))}
+			for i := range x.C {
+				n.C[i] = ex.ts.Ite(g, x.C[i], y.C[i])
 			}
 			return n
 		}
